@@ -246,17 +246,24 @@ func checkReceive(r reporter, tier string) (evals, nontrivial int64) {
 		{"nil", nil, false},
 	}
 	for _, n := range lengths {
-		for pat := 0; pat < 3; pat++ {
+		for pat := 0; pat < 3+7; pat++ {
 			content := make([]byte, n)
 			for i := range content {
 				switch pat {
-				case 0:
-					content[i] = byte(i + 1)
 				case 1:
 					content[i] = 0xFF
 				case 2:
 					content[i] = 0
+				default:
+					content[i] = byte(i + 1)
 				}
+			}
+			if pat >= 3 {
+				// nlmsg_len = datagram length + {-3..+3}: must be ignored
+				if n < 4 {
+					continue
+				}
+				binary.LittleEndian.PutUint32(content, uint32(n+pat-6))
 			}
 			for _, snd := range senders {
 				for _, nonBlocking := range []bool{true, false} {
@@ -331,6 +338,57 @@ func checkReceive(r reporter, tier string) (evals, nontrivial int64) {
 			}
 		}
 	}
+	// state carried between receives on ONE client: long then short, spoofed then genuine, error then data
+	kern := &syscall.SockaddrNetlink{Family: syscall.AF_NETLINK, Pid: 0}
+	user := &syscall.SockaddrNetlink{Family: syscall.AF_NETLINK, Pid: 77}
+	mk := func(n int, fill byte) []byte {
+		b := make([]byte, n)
+		for i := range b {
+			b[i] = fill + byte(i)
+		}
+		return b
+	}
+	type step struct {
+		b    []byte
+		from syscall.Sockaddr
+		err  error
+	}
+	seqs := [][]step{
+		{{mk(200, 1), kern, nil}, {mk(20, 9), kern, nil}, {mk(16, 3), kern, nil}},
+		{{mk(64, 1), user, nil}, {mk(24, 5), kern, nil}},
+		{{nil, nil, syscall.EAGAIN}, {mk(40, 7), kern, nil}, {nil, nil, syscall.EINTR}, {mk(17, 2), kern, nil}},
+		{{mk(8, 1), kern, nil}, {mk(30, 4), kern, nil}, {mk(64, 6), user, nil}, {mk(30, 8), kern, nil}},
+		{{mk(8986, 1), kern, nil}, {mk(16, 2), kern, nil}, {mk(8986, 3), kern, nil}},
+	}
+	for si, sq := range seqs {
+		s := &sockSim{}
+		nc, err := newClient(s, 16+8970)
+		if err != nil {
+			r.run.Errorf("NewNetlinkClient: %v", err)
+			return
+		}
+		ac := &libaudit.AuditClient{Netlink: nc}
+		for _, st := range sq {
+			s.recvQ = append(s.recvQ, recvAnswer{b: st.b, from: st.from, err: st.err})
+		}
+		var prev *libaudit.RawAuditMessage
+		for i, st := range sq {
+			m, err := ac.Receive(true)
+			evals++
+			accept := st.err == nil && st.from == kern && len(st.b) >= 16
+			if accept != (err == nil && m != nil) {
+				r.rep("receive-sequence", "sequence %d step %d on one client: Receive = (%v, %v), want accept=%v", si, i, m, err, accept)
+				continue
+			}
+			if accept && (uint16(m.Type) != binary.LittleEndian.Uint16(st.b[4:]) || !bytes.Equal(m.Data, st.b[16:])) {
+				r.rep("receive-sequence-altered", "sequence %d step %d on one client: type %d / %d bytes, want type %d / %d bytes unchanged (stale data from an earlier receive?)", si, i, m.Type, len(m.Data), binary.LittleEndian.Uint16(st.b[4:]), len(st.b)-16)
+				continue
+			}
+			_ = prev
+			prev = m
+			nontrivial++
+		}
+	}
 	r.run.Sample("Receive(nonBlocking) of a 17-byte datagram from netlink pid 4242 => error 'message received was not from the kernel', no message, parser not run")
 	return
 }
@@ -347,10 +405,21 @@ func (s *shortNetlink) Receive(nb bool, p libaudit.NetlinkParser) ([]syscall.Net
 
 func checkParser(r reporter) (evals, nontrivial int64) {
 	for n := 0; n <= 64; n++ {
-		for pat := 0; pat < 2; pat++ {
+		// header length words around the datagram length: the audit parser must ignore nlmsg_len
+		lens := []int64{-1}
+		for d := -9; d <= 9; d++ {
+			if n+d >= 0 {
+				lens = append(lens, int64(n+d))
+			}
+		}
+		lens = append(lens, 0, 16, 17, 1<<31-1, 1<<31, 1<<32-1, int64(n)-16, int64(n)+16)
+		for pat := 0; pat < len(lens)+1; pat++ {
 			b := make([]byte, n, n) // cap == len: an over-read would fault or show up as foreign bytes
 			for i := range b {
-				b[i] = byte(i*3 + 1 + pat*0x80)
+				b[i] = byte(i*3 + 1 + (pat%2)*0x80)
+			}
+			if pat < len(lens) && lens[pat] >= 0 && n >= 4 {
+				binary.LittleEndian.PutUint32(b, uint32(lens[pat]))
 			}
 			ac := &libaudit.AuditClient{Netlink: &shortNetlink{b: b}}
 			var m *libaudit.RawAuditMessage
